@@ -84,6 +84,9 @@ CHECKS = {
  "C25": ("exploration", "model-based run-time monitor: index state (ids via exhaustive search, latest vectors, len, dimension, tombstone count, config) vs history model after every operation incl. save/load",
          "held on every history of the run apart from the listed known finding (exhaustive search does not reach every live id): no deleted/unknown id visible, latest vectors stored, len/dimension/tombstone_count/config as implied, across save/load",
          "trusted: the history model incl. the documented 30% auto-compaction policy", "3/C25"),
+ "C26": ("exploration", "law-checking run-time monitor over random vectors, plus LSH bucket determinism across hyperplane-cache states and 4 concurrent threads",
+         "held on every generated input of the run: distance symmetry/non-negativity/zero-on-self/cosine range, quantisation error within one step, LSH buckets equal across cold/warm/evicted/regrown/concurrent cache states, probe sequences start at the bucket without repeats (lsh_probes monotone in Hamming distance), temporal predicate laws",
+         "trusted: the cold-cache bucket as reference; Miri/TSan lanes are not part of this check", "3/C26"),
 }
 NOT_YET = "monitor not built yet in this round (design in DESIGN.md section 3); not claimed until a check exists"
 
